@@ -22,10 +22,48 @@ def sink_lists(res, rnd, cases):
                        theorem='C11_list_exact / C11_readonly', n_quick=200, n_thorough=6000)
 
 
+def twin_lists(res, rnd, cases):
+    """two `list` commands in direct succession whose matchers PRINT the same but mean different things (an integer or a
+    type/label word against the same characters as a string: `(9)` / `("9")`, `(=wl_shm)` / `(="wl_shm")`), on an unchanged
+    record: each must return its own messages and counts (a result remembered under the printed form would not)"""
+    n = 60 if res.tier == 'quick' else 2500
+    out = []
+    for _ in range(n):
+        c = sessioncheck.build_case(rnd, n_events=rnd.choice([15, 30, 45]), chatter=0.03, config=[None, None, 0, 1, 0])
+        ints, strs = set(), set()
+        for e in c['events']:
+            if e[0] == 'msg':
+                for a in e[2][5]:
+                    if a[0] == 'int':
+                        ints.add(a[1])
+                    elif a[0] == 'str' and a[1] and all(ch.isalnum() or ch == '_' for ch in a[1]):
+                        strs.add(a[1])
+        words = [str(i) for i in sorted(ints)[:6]] + sorted(strs)[:6] + ['wl_shm', 'wl_seat', 'wl_compositor', '0', '1']
+        tail = []
+        for _ in range(rnd.choice([1, 2, 3])):
+            w = rnd.choice(words)
+            shape = rnd.choice(['(%s)', '(=%s)', '.(%s)', '(*=%s)'])
+            a, b = 'list ' + shape % w, 'list ' + shape % ('"' + w + '"')
+            pair = [a, b] if rnd.random() < 0.5 else [b, a]
+            if rnd.random() < 0.3:
+                pair.append(pair[0])
+            tail += pair
+        c['events'] = c['events'] + [['cmd', t] for t in tail]
+        c['impl_events'] = c['impl_events'] + [('cmd', t) for t in tail]
+        out.append(c)
+    sessioncheck.run_cases(res, out, lambda cat: cat.startswith('out.cmd') or cat.startswith('final.ctrl'), 'C11 (look-alike list commands in succession)',
+                           theorem='C11_list_exact / C11_repeated_list', nontrivial=lambda c, m: True, kernel_sample=4)
+
+
+def extras(res, rnd, cases):
+    sink_lists(res, rnd, cases)
+    twin_lists(res, rnd, cases)
+
+
 INFO, run, replay = sessprop.make(
     'C11', ['out.cmd*', 'final.ctrl.matchers', 'final.ctrl.current', 'final.ctrl.all', 'final.ctrl.pause'],
     ['Proofs/ControllerProofs.v', 'Proofs/SessionProofs.v', 'Proofs/ListRuns.v'],
     ['theorems are about WD.Session.scan_matching / show_messages; tied to Controller.list_command/_get_matching/show_messages by sessions with list commands (matcher absent/present, caps absent, 0, 1.., negative, malformed, repeated) with and without a selected connection, comparing every printed line and the state afterwards'],
     'C11_list_exact / C11_readonly', gen, nontriv,
     'generated sessions with `list [matcher] [~ N]` commands between lines and after EOF (caps 0,1,2,3,5,10,1000,-1,malformed), connection selection commands mixed in; plus open/message/close sequences on the connection-id interface with connection/list commands (connections without any recorded message); non-trivial = at least two list commands; distinct by input',
-    extra=sink_lists)
+    extra=extras)
